@@ -35,6 +35,16 @@ func TestMain(m *testing.M) { hx.Main(m) }
 
 const ioTimeout = 8 * time.Second
 
+// haveV6: the sandbox has an IPv6 loopback
+var haveV6 = func() bool {
+	ln, err := net.Listen("tcp", "[::1]:0")
+	if err != nil {
+		return false
+	}
+	ln.Close()
+	return true
+}()
+
 // ---------------------------------------------------------------------------
 // ClientHello from crypto/tls
 
@@ -113,6 +123,7 @@ type tunnel struct {
 	// listener option wt= (write timeout towards the client) without a read timeout: it limits
 	// how long one write may block, not how long a side may stay quiet
 	writeTimeout time.Duration
+	v6           bool // the client connects over IPv6 (::1)
 }
 
 func genStream(t *rapid.T, label string, allowEmpty bool) []byte {
@@ -174,6 +185,7 @@ func genTunnel(t *rapid.T, kinds []string) tunnel {
 	tn := tunnel{kind: rapid.SampledFrom(kinds).Draw(t, "kind"), cpauseAt: -1, upauseAt: -1}
 	tn.mode = rapid.SampledFrom([]string{"both/upstream-closes", "both/client-closes", "client-only", "upstream-only", "half-close"}).Draw(t, "mode")
 	tn.pxyproto = (tn.kind == "tcp" || tn.kind == "sni" || tn.kind == "tcp+tls") && rapid.Bool().Draw(t, "pxyproto")
+	tn.v6 = tn.kind != "ws" && haveV6 && rapid.IntRange(0, 3).Draw(t, "ipv6-client") == 0
 	switch tn.mode {
 	case "client-only":
 		tn.client = genStream(t, "c", false)
@@ -210,6 +222,9 @@ func (tn tunnel) String() string {
 	}
 	if tn.writeTimeout > 0 {
 		s += fmt.Sprintf(" listener-write-timeout=%v", tn.writeTimeout)
+	}
+	if tn.v6 {
+		s += " client-over-ipv6"
 	}
 	return s
 }
@@ -367,7 +382,11 @@ func runTunnel(tn tunnel) (res result) {
 		srv := httptest.NewServer(&proxy.HTTPProxy{Transport: http.DefaultTransport, Lookup: func(*http.Request) *route.Target { return tg }})
 		frontAddr, closeFront = srv.Listener.Addr().String(), srv.Close
 	} else {
-		ln, err := hx.Listen("tcp", "127.0.0.1:0")
+		laddr := "127.0.0.1:0"
+		if tn.v6 {
+			laddr = "[::1]:0"
+		}
+		ln, err := hx.Listen("tcp", laddr)
 		if err != nil {
 			fail("listen: %v", err)
 			return
@@ -394,6 +413,9 @@ func runTunnel(tn tunnel) (res result) {
 	// the client comes from another loopback address so that client and
 	// server address are distinguishable in the PROXY line
 	d := net.Dialer{LocalAddr: &net.TCPAddr{IP: net.IPv4(127, 0, 0, byte(2+len(tn.client)%5))}, Timeout: 5 * time.Second}
+	if tn.v6 {
+		d.LocalAddr = nil
+	}
 	c, err := d.Dial("tcp", frontAddr)
 	if err != nil {
 		c, err = net.Dial("tcp", frontAddr)
@@ -523,7 +545,11 @@ func runTunnel(tn tunnel) (res result) {
 	// what the PROXY line must say
 	if tn.pxyproto {
 		ca, sa := rawConn.LocalAddr().(*net.TCPAddr), rawConn.RemoteAddr().(*net.TCPAddr)
-		want := fmt.Sprintf("PROXY TCP4 %s %s %d %d\r\n", ca.IP, sa.IP, ca.Port, sa.Port)
+		fam := "TCP4"
+		if ca.IP.To4() == nil {
+			fam = "TCP6"
+		}
+		want := fmt.Sprintf("PROXY %s %s %s %d %d\r\n", fam, ca.IP, sa.IP, ca.Port, sa.Port)
 		mu.Lock()
 		if res.proxyLine != want {
 			res.errs = append(res.errs, fmt.Sprintf("PROXY line %q, want %q", res.proxyLine, want))
@@ -596,6 +622,9 @@ func classify(tn tunnel) {
 	}
 	if tn.pxyproto {
 		hx.Class("pxyproto")
+	}
+	if tn.pxyproto && tn.v6 {
+		hx.Class("pxyproto-with-ipv6-client")
 	}
 	if hx.WantSample(tn.kind) && nt {
 		hx.Sample(tn.kind, tn.String())
